@@ -136,6 +136,77 @@ func runStructural(id string, prog *Program, specs *SpecSet) extraResult {
 				ok = false
 				offenders = append(offenders, "field not found: "+st.Subject)
 			}
+		case "mapwriters":
+			// the map (or slice) held in field T.f is updated only inside the listed
+			// functions, the field itself is assigned only there, and the value
+			// loaded from the field never escapes anywhere else
+			i := strings.LastIndex(st.Subject, ".")
+			if i < 0 {
+				ok = false
+				offenders = append(offenders, "bad subject")
+				break
+			}
+			tname, fname := st.Subject[:i], st.Subject[i+1:]
+			found := false
+			for _, fn := range allFuncsOf(prog, st.PkgPath) {
+				isAllowed := allowed[topKey(fn)] || allowed[funcKey(fn)]
+				for _, b := range fn.Blocks {
+					for _, in := range b.Instrs {
+						fa, isFA := in.(*ssa.FieldAddr)
+						if !isFA {
+							continue
+						}
+						stt, isSt := deref(fa.X.Type()).Underlying().(*types.Struct)
+						nt, isNamed := deref(fa.X.Type()).(*types.Named)
+						if !isSt || !isNamed || nt.Obj().Name() != tname || stt.Field(fa.Field).Name() != fname {
+							continue
+						}
+						found = true
+						for _, ref := range *fa.Referrers() {
+							switch u := ref.(type) {
+							case *ssa.DebugRef:
+							case *ssa.Store:
+								if u.Addr == fa && !isAllowed {
+									offenders = append(offenders, funcKey(fn)+" (assigns the field)")
+								}
+							case *ssa.UnOp:
+								// the loaded map value: every use must be a read, unless allowed
+								if isAllowed {
+									continue
+								}
+								for _, r2 := range *u.Referrers() {
+									switch w := r2.(type) {
+									case *ssa.DebugRef, *ssa.Lookup, *ssa.Range, *ssa.Index:
+									case *ssa.IndexAddr:
+										if interiorWritten(w) {
+											offenders = append(offenders, funcKey(fn)+" (writes an element)")
+										}
+									case *ssa.MapUpdate:
+										offenders = append(offenders, funcKey(fn)+" (map update)")
+									case *ssa.Call:
+										if bi, isB := w.Common().Value.(*ssa.Builtin); isB && (bi.Name() == "len" || bi.Name() == "cap") {
+											continue
+										}
+										offenders = append(offenders, funcKey(fn)+" (passes the map/slice to "+callKey(w.Common())+")")
+									case *ssa.BinOp:
+										// comparison with nil
+									default:
+										offenders = append(offenders, funcKey(fn)+fmt.Sprintf(" (value escapes through %T)", r2))
+									}
+								}
+							default:
+								if !isAllowed {
+									offenders = append(offenders, funcKey(fn)+" (address of the field escapes)")
+								}
+							}
+						}
+					}
+				}
+			}
+			if !found {
+				ok = false
+				offenders = append(offenders, "field not found: "+st.Subject)
+			}
 		case "callers":
 			target := prog.lookupFunc(st.PkgPath, st.Subject)
 			if target == nil {
